@@ -152,12 +152,12 @@ class Capacities(JSONField):
         :return: self to support call chaining
         """
         for k, v in kwargs.items():
-            if v is not None:
-                assert v >= 0
-                assert isinstance(v, int)
             try:
                 # will toss an exception if field is not defined
                 self.__getattribute__(k)
+                if v is not None:
+                    assert v >= 0
+                    assert isinstance(v, int)
                 self.__setattr__(k, v)
             except AttributeError:
                 report = f"Unable to set field {k} of capacity, no such field available "\
@@ -305,11 +305,11 @@ class CapacityHints(JSONField):
         :return: self to support call chaining
         """
         for k, v in kwargs.items():
-            assert v is not None  # could be strings
-            assert isinstance(v, str)
             try:
                 # will toss an exception if field is not defined
                 self.__getattribute__(k)
+                assert v is not None  # could be strings
+                assert isinstance(v, str)
                 self.__setattr__(k, v)
             except AttributeError:
                 report = f"Unable to set field {k} of capacity hints, no such field available"
@@ -417,11 +417,11 @@ class Labels(JSONField):
         :return: self to support call chaining
         """
         for k, v in kwargs.items():
-            assert v is not None  # could be strings or lists of strings
-            assert isinstance(v, str) or isinstance(v, list)
             try:
                 # will toss an exception if field is not defined
                 self.__getattribute__(k)
+                assert v is not None  # could be strings or lists of strings
+                assert isinstance(v, str) or isinstance(v, list)
                 if self.VALIDATORS.get(k, None) is not None:
                     if isinstance(v, list):
                         for i in v:
@@ -510,11 +510,11 @@ class ReservationInfo(JSONField):
         :return: self to support call chaining
         """
         for k, v in kwargs.items():
-            assert v is not None  # could be strings or lists of strings
-            assert isinstance(v, str) or isinstance(v, list)
             try:
                 # will toss an exception if field is not defined
                 self.__getattribute__(k)
+                assert v is not None  # could be strings or lists of strings
+                assert isinstance(v, str) or isinstance(v, list)
                 self.__setattr__(k, v)
             except AttributeError:
                 report = f"Unable to set field {k} of reservation info, no such field "\
@@ -546,11 +546,11 @@ class StructuralInfo(JSONField):
         :return:
         """
         for k, v in kwargs.items():
-            assert v is not None  # could be strings or lists of strings
-            assert isinstance(v, str) or isinstance(v, list)
             try:
                 # will toss an exception if field is not defined
                 self.__getattribute__(k)
+                assert v is not None  # could be strings or lists of strings
+                assert isinstance(v, str) or isinstance(v, list)
                 self.__setattr__(k, v)
             except AttributeError:
                 report = f"Unable to set field {k} of structural info, no such field available"
@@ -579,11 +579,11 @@ class Location(JSONField):
         :return:
         """
         for k, v in kwargs.items():
-            assert v is not None
-            assert isinstance(v, str) or isinstance(v, float)
             try:
                 # will throw exception if field is not defined
                 self.__getattribute__(k)
+                assert v is not None
+                assert isinstance(v, str) or isinstance(v, float)
                 self.__setattr__(k, v)
             except AttributeError:
                 report = f"Unable to set field {k} of location, no such field available"
@@ -635,11 +635,11 @@ class Flags(JSONField):
 
     def _set_fields(self, forgiving=False, **kwargs):
         for k, v in kwargs.items():
-            assert v is not None
-            assert isinstance(v, bool)
             try:
                 # will throw exception if field is not defined
                 self.__getattribute__(k)
+                assert v is not None
+                assert isinstance(v, bool)
                 self.__setattr__(k, v)
             except AttributeError:
                 report = f"Unable to set field {k} of flags, no such field available"
